@@ -10,4 +10,4 @@ From VF Require Export Sched.ProofsAssoc Sched.ProofsBasic Sched.ProofsFrame Sch
   Sched.ProofsObsLink Sched.ProofsObsC01 Sched.ProofsFull1 Sched.ProofsFull2 Sched.ProofsFull3 Sched.ProofsFull4 Sched.ProofsFull5
   Sched.ProofsFull6 Sched.ProofsFullTN Sched.ProofsFull7 Sched.ProofsFull8 Sched.ProofsFullEx Sched.ProofsObsC03 Sched.ProofsQueueArmed Sched.ProofsC04W
   Sched.ProofsTree Sched.ProofsOrder Sched.ProofsFind Sched.ProofsTC1 Sched.ProofsTC2 Sched.ProofsTC3 Sched.ProofsTC4 Sched.ProofsTC5 Sched.ProofsTC6
-  Sched.ProofsBg1 Sched.ProofsBg2 Sched.ProofsBg3 Sched.ProofsBg4 Sched.ProofsMon1 Sched.ProofsMon2 Sched.ProofsMon3 Sched.ProofsMon4 Sched.ProofsMon5 Sched.ProofsMon6 Sched.ProofsMon7 Sched.ProofsMon8 Sched.ProofsMon9 Sched.ProofsMon10 Sched.ProofsMon11 Sched.ProofsMonW Sched.ProofsMon12 Sched.ProofsMon13 Sched.ProofsMon14 Sched.ProofsMon15 Sched.ProofsMonSum.
+  Sched.ProofsBg1 Sched.ProofsBg2 Sched.ProofsBg3 Sched.ProofsBg4 Sched.ProofsMon1 Sched.ProofsMon2 Sched.ProofsMon3 Sched.ProofsMon4 Sched.ProofsMon5 Sched.ProofsMon6 Sched.ProofsMon7 Sched.ProofsMon8 Sched.ProofsMon9 Sched.ProofsMon10 Sched.ProofsMon11 Sched.ProofsMonW Sched.ProofsMon12 Sched.ProofsMon13 Sched.ProofsMon14 Sched.ProofsMon15 Sched.ProofsMon16 Sched.ProofsMonSum.
